@@ -55,6 +55,11 @@ CHECKS["C09"] = ("exploration",
   "For every enumerated type the identity program is compiled; for every value every spelling is pushed through parse_arg, literal_arg, Evaluator::set_literal, parse_output and the identity circuit. Canonical spellings must be accepted and encode to exactly the oracle bits (size(T), documented layout); alternative spellings of the same value must be refused or give the same bits; spellings that denote no value (out-of-range numbers, duplicated/missing fields, wrong arity, reversed ranges, trailing tokens) must be refused; nothing may panic.",
   "Oracle = gast.rs Val::encode/decode (big-endian two's complement, concatenation, tag + zero padding). Values per type capped (cap in evidence).", "DESIGN.md §4 C09")
 
+CHECKS["C12"] = ("exploration",
+  "exhaustive enumeration of const sections x use templates x all assignments of the external constants over boundary alphabets, differential against the literal-substituted program on every input; exhaustive failure space (missing / mistyped / extra) for 3 declared constants",
+  "Every const section of the grammar (external, literal, reference, min/max/+/- incl. nesting, up to 3 declarations across two parties) for six constant types is combined with every use template and every assignment of the externals; the harness evaluates the constants itself (wrapping arithmetic of the constant's type), substitutes the values as literals and requires the real compiler to produce the same party sizes, output width and outputs on every input. All 8^3 x 2 combinations of fine/missing/wrongly-typed constants must return an error naming each offending constant, never a panic.",
+  "Sizes above 48 elements are excluded from size positions (resource bound). Panic locations are not compared across the two source texts.", "DESIGN.md §4 C12")
+
 NOT_YET = {
 }
 
